@@ -22,11 +22,16 @@ pub mod c13;
 pub mod c14;
 pub mod c15;
 pub mod c17;
+#[cfg(feature = "macro-lib")]
 pub mod c18;
 pub mod c19;
 pub mod c20;
 pub mod c16;
 
 pub fn all() -> Vec<&'static PropDef> {
-    vec![&c01::DEF, &c02::DEF, &c03::DEF, &c04::DEF, &c05::DEF, &c06::DEF, &c07::DEF, &c08::DEF, &c09::DEF, &c10::DEF, &c11::DEF, &c12::DEF, &c13::DEF, &c14::DEF, &c15::DEF, &c16::DEF, &c17::DEF, &c18::DEF, &c19::DEF, &c20::DEF]
+    #[allow(unused_mut)]
+    let mut v = vec![&c01::DEF, &c02::DEF, &c03::DEF, &c04::DEF, &c05::DEF, &c06::DEF, &c07::DEF, &c08::DEF, &c09::DEF, &c10::DEF, &c11::DEF, &c12::DEF, &c13::DEF, &c14::DEF, &c15::DEF, &c16::DEF, &c17::DEF, &c19::DEF, &c20::DEF];
+    #[cfg(feature = "macro-lib")]
+    v.insert(17, &c18::DEF);
+    v
 }
